@@ -1,0 +1,283 @@
+//go:build verif
+
+package plugins
+
+// Machine-checked contracts (comment-only; build tag verif). Checked by /verif/bin/hv.
+
+// ---------------------------------------------------------------------------------------------------
+// Plugin chain (C17). Middleware and handlers are abstract values:
+//   build(f, name, cfg)  the middleware factory f produces for (name, config)   (factories are deterministic)
+//   build_fails(f, name, cfg)  the factory rejects that configuration
+//   apply(m, h)          the handler middleware m produces around handler h
+// The ghost arrays record, per chain position k, the middleware built for entry k (mwAt[k]) and the handler
+// that wraps positions k.. (wrapAt[k]); wrapAt[len] is the base handler.
+//@ ufun apply(Int, Int) Int
+//@ ufun build(Int, String, Int) Int
+//@ ufun build_fails(Int, String, Int) Bool
+//@ ghost var mwAt (Array Int Int)
+//@ ghost var wrapAt (Array Int Int)
+
+//@ func fnvalue:BuildChain:f params(name, cfg)
+//@   results mw, err
+//@   ensures (err != nil) == build_fails(f, name, ptr(cfg))
+//@   ensures err == nil ==> mw != nil && mw == build(f, name, ptr(cfg))
+//@ func fnvalue:BuildChain:mw params(next)
+//@   ensures result != nil && ptr(result) == apply(mw, ptr(next))
+
+//@ pred entryOK(pc config.PluginsConfig, k int) := has(builtins, pc.Chain[k].Name)
+//@      && !build_fails(builtins[pc.Chain[k].Name], pc.Chain[k].Name, ptr(pc.Chain[k].Config))
+//@ pred builtAt(pc config.PluginsConfig, k int) := wrapAt[k] == apply(mwAt[k], wrapAt[k+1])
+//@      && mwAt[k] == build(builtins[pc.Chain[k].Name], pc.Chain[k].Name, ptr(pc.Chain[k].Config))
+
+// The registry only ever holds non-nil factories (RegisterBuiltin ignores nil).
+//@ pred registryOK() := builtins != nil && (forall n string :: {builtins[n]} has(builtins, n) ==> builtins[n] != nil)
+//@ func RegisterBuiltin
+//@   props C17
+//@   requires registryOK()
+//@   ensures kept: registryOK()
+//@   ensures registered: name != "" && f != nil ==> has(builtins, name) && builtins[name] == f
+//@   modifies mapof(builtins)
+
+//@ func BuildChain
+//@   props C17
+//@   results handler, err
+//@   requires registryOK()
+//@   ghost entry :: wrapAt := upd(wrapAt, len(pc.Chain), ptr(base))
+//@   ghost after f :: mwAt := upd(mwAt, i, ret)
+//@   ghost after mw :: wrapAt := upd(wrapAt, i, ptr(ret))
+//@   ensures nil_base_rejected: base == nil ==> err != nil
+//@   ensures disabled_is_identity: base != nil && (!pc.Enabled || len(pc.Chain) == 0) ==> err == nil && handler == base
+//@   ensures configured_order_first_outermost: err == nil && pc.Enabled && len(pc.Chain) > 0 ==> handler != nil && ptr(handler) == wrapAt[0]
+//@             && wrapAt[len(pc.Chain)] == ptr(base) && (forall k int :: {wrapAt[k]} 0 <= k && k < len(pc.Chain) ==> builtAt(pc, k))
+//@   ensures startup_fails_closed: err != nil ==> handler == nil
+//@   ensures bad_entry_prevents_startup: err == nil && pc.Enabled ==> forall k int :: {pc.Chain[k]} 0 <= k && k < len(pc.Chain) ==> entryOK(pc, k)
+//@   ensures all_good_entries_start: base != nil && pc.Enabled && (forall k int :: {pc.Chain[k]} 0 <= k && k < len(pc.Chain) ==> entryOK(pc, k)) ==> err == nil
+//@   modifies mwAt, wrapAt
+//@ loop BuildChain #0
+//@   props C17
+//@   invariant idx: -1 <= i && i < len(pc.Chain)
+//@   invariant inner: h != nil && ptr(h) == wrapAt[i+1] && wrapAt[len(pc.Chain)] == ptr(base)
+//@   invariant built: forall k int :: {wrapAt[k]} i < k && k < len(pc.Chain) ==> builtAt(pc, k)
+//@   invariant good: forall k int :: {pc.Chain[k]} i < k && k < len(pc.Chain) ==> entryOK(pc, k)
+//@   decreases i + 1
+
+// ---------------------------------------------------------------------------------------------------
+// size_limit (C14). u := the wrapped writer (abstract http.ResponseWriter state: committed, status, bodyLen).
+// base = body bytes the wrapped writer had accepted when the wrapper was created.
+//@ ghost field limitedResponseWriter.base Int
+//@ ghost var askedStatus Int
+//@ ghost var limitHit Bool
+//@ objinv limitedResponseWriter l
+//@   inv bound: 0 <= l.written && l.written <= l.limit && l.limit <= 4611686018427387904 && l.ResponseWriter.bodyLen == l.base + l.written
+//@   inv wrapped: l.ResponseWriter != nil
+//@   inv committed_iff_wrote: l.wroteHeader ==> l.ResponseWriter.committed || l.ResponseWriter.hijacked
+//@   inv not_committed_before: !l.wroteHeader ==> !l.ResponseWriter.committed || l.ResponseWriter.hijacked
+//@   inv status_fidelity: l.wroteHeader && !l.limitReached && !l.ResponseWriter.hijacked ==> l.ResponseWriter.status == l.statusCode && l.statusCode != 0
+//@   inv limit_means_committed: l.limitReached ==> l.wroteHeader
+
+//@ func (*limitedResponseWriter).ensureHeaderWritten
+//@   props C14
+//@   requires lrw.ResponseWriter != nil
+//@   ensures sent: lrw.wroteHeader
+//@   ensures first_commit: !old(lrw.wroteHeader) ==> lrw.statusCode == (old(lrw.statusCode) == 0 ? 200 : old(lrw.statusCode))
+//@             && (!old(lrw.ResponseWriter.committed) ==> lrw.ResponseWriter.committed && lrw.ResponseWriter.status == lrw.statusCode)
+//@   ensures already: old(lrw.wroteHeader) ==> lrw.statusCode == old(lrw.statusCode) && lrw.ResponseWriter.status == old(lrw.ResponseWriter.status) && lrw.ResponseWriter.committed == old(lrw.ResponseWriter.committed)
+//@   ensures body_kept: lrw.ResponseWriter.bodyLen == old(lrw.ResponseWriter.bodyLen)
+//@   modifies lrw.wroteHeader, lrw.statusCode, http.ResponseWriter.committed, http.ResponseWriter.status
+
+//@ func (*limitedResponseWriter).checkLimit
+//@   props C14
+//@   requires inv(lrw)
+//@   ensures inv: inv(lrw)
+//@   ensures within: old(lrw.written) + len(b) <= lrw.limit ==> result == nil && lrw.limitReached == old(lrw.limitReached) && lrw.wroteHeader == old(lrw.wroteHeader)
+//@             && lrw.statusCode == old(lrw.statusCode) && lrw.ResponseWriter.committed == old(lrw.ResponseWriter.committed)
+//@   ensures exact_limit_passes: old(lrw.written) + len(b) == lrw.limit ==> result == nil
+//@   ensures excess: old(lrw.written) + len(b) > lrw.limit ==> result != nil && lrw.limitReached
+//@   ensures excess_before_anything_sent_is_413: old(lrw.written) + len(b) > lrw.limit && !old(lrw.wroteHeader) && !lrw.ResponseWriter.hijacked ==> lrw.ResponseWriter.status == 413
+//@   ensures nothing_written: lrw.written == old(lrw.written) && lrw.ResponseWriter.bodyLen == old(lrw.ResponseWriter.bodyLen)
+//@   modifies lrw.limitReached, lrw.wroteHeader, lrw.statusCode, http.ResponseWriter.committed, http.ResponseWriter.status
+
+//@ func (*limitedResponseWriter).Write
+//@   props C14
+//@   requires inv(lrw)
+//@   ensures inv: inv(lrw)
+//@   ensures never_beyond_limit: lrw.ResponseWriter.bodyLen - lrw.base <= lrw.limit
+//@   ensures refused_when_excess: old(lrw.limitReached) || old(lrw.written) + len(b) > lrw.limit ==> result0 == 0 && result1 != nil && lrw.ResponseWriter.bodyLen == old(lrw.ResponseWriter.bodyLen)
+//@   modifies lrw.written, lrw.limitReached, lrw.wroteHeader, lrw.statusCode, http.ResponseWriter.committed, http.ResponseWriter.status, http.ResponseWriter.bodyLen
+
+//@ func (*limitedResponseWriter).WriteHeader
+//@   props C14
+//@   requires inv(lrw)
+//@   ensures inv: inv(lrw)
+//@   ensures records: !old(lrw.wroteHeader) ==> lrw.statusCode == statusCode
+//@   modifies lrw.statusCode
+
+//@ func (*limitedResponseWriter).Flush
+//@   props C14
+//@   requires inv(lrw)
+//@   ensures inv: inv(lrw)
+//@   ensures flush_sends_recorded_status: !old(lrw.limitReached) && !old(lrw.wroteHeader) && !old(lrw.ResponseWriter.committed)
+//@             ==> lrw.ResponseWriter.status == (old(lrw.statusCode) == 0 ? 200 : old(lrw.statusCode))
+//@   modifies lrw.wroteHeader, lrw.statusCode, http.ResponseWriter.committed, http.ResponseWriter.status, http.ResponseWriter.flushes
+
+//@ func (*limitedResponseWriter).Hijack
+//@   props C14 C20
+//@   requires inv(lrw)
+//@   ensures inv: inv(lrw)
+//@   modifies lrw.wroteHeader, http.ResponseWriter.hijacked
+
+//@ func (*limitedResponseWriter).finish
+//@   props C14
+//@   requires inv(lrw)
+//@   ensures inv: inv(lrw)
+//@   ensures bodiless_status_is_sent: !old(lrw.limitReached) && old(lrw.statusCode) != 0 && !lrw.ResponseWriter.hijacked ==> lrw.ResponseWriter.committed && lrw.ResponseWriter.status == old(lrw.statusCode)
+//@   ensures body_kept: lrw.ResponseWriter.bodyLen == old(lrw.ResponseWriter.bodyLen)
+//@   modifies lrw.wroteHeader, lrw.statusCode, http.ResponseWriter.committed, http.ResponseWriter.status
+
+// The handler installed by the plugin.
+//@ func newSizeLimitMiddleware$1$1
+//@   props C14 C17
+//@   may_panic
+//@   ghost before ServeHTTP :: lrw.base := w.bodyLen
+//@   ghost before finish :: askedStatus := lrw.statusCode
+//@   ghost before finish :: limitHit := lrw.limitReached
+//@   ensures status_of_bodiless_and_normal_responses_unchanged: r.ContentLength <= maxRequestBody && !limitHit && askedStatus != 0 && !w.hijacked
+//@             ==> w.committed && w.status == askedStatus
+//@   requires w != nil && r != nil && next != nil && !w.committed && !w.hijacked && maxResponseBody > 0 && maxRequestBody > 0 && maxResponseBody <= 4611686018427387904
+//@   ensures declared_oversize_is_413_before_backend: r.ContentLength > maxRequestBody ==> calls(next) == 0 && w.committed && w.status == 413
+//@   ensures within_limit_reaches_next_once: r.ContentLength <= maxRequestBody ==> calls(next) == 1
+//@   ensures response_bounded: w.bodyLen - old(w.bodyLen) <= maxResponseBody || r.ContentLength > maxRequestBody
+//@   modifies *
+
+// ---------------------------------------------------------------------------------------------------
+// gzip (C15). u := the wrapped writer. What the client receives is u's state at commit: status and the header
+// values ceAtCommit / clAtCommit (Content-Encoding / Content-Length as they were when the header went out).
+//@ pred hdrOf(w http.ResponseWriter, k string) string := gfield(hdrmap(ptr(w)), http.Header.vals)[k]
+//@ objinv gzipResponseWriter g
+//@   inv wrapped: g.ResponseWriter != nil
+//@   inv sent_means_committed: g.headerSent ==> g.wroteHeader && g.ResponseWriter.committed
+//@   inv unsent_means_uncommitted: !g.headerSent ==> !g.ResponseWriter.committed || g.ResponseWriter.hijacked
+//@   inv buffering_sends_nothing: !g.bufferExceeded ==> !g.headerSent
+//@   inv streaming_has_sent: g.bufferExceeded ==> g.headerSent
+//@   inv status_fidelity: g.headerSent && !g.ResponseWriter.hijacked ==> g.ResponseWriter.status == g.statusCode
+//@   inv buffered: g.buf.n >= 0 && g.buf.n <= MaxCompressionBufferSize
+
+//@ func (*gzipResponseWriter).WriteHeader
+//@   props C15
+//@   requires inv(g)
+//@   ensures inv: inv(g)
+//@   ensures records_first_status: !old(g.wroteHeader) ==> g.statusCode == code && g.wroteHeader
+//@   ensures later_calls_ignored: old(g.wroteHeader) ==> g.statusCode == old(g.statusCode)
+//@   ensures nothing_sent_yet: g.ResponseWriter.committed == old(g.ResponseWriter.committed)
+//@   modifies g.statusCode, g.wroteHeader
+
+//@ func (*gzipResponseWriter).sendHeader
+//@   props C15
+//@   requires g.ResponseWriter != nil && (g.headerSent ==> g.wroteHeader && g.ResponseWriter.committed) && (!g.headerSent ==> !g.ResponseWriter.committed || g.ResponseWriter.hijacked)
+//@   requires g.headerSent && !g.ResponseWriter.hijacked ==> g.ResponseWriter.status == g.statusCode
+//@   ensures sent: g.headerSent && g.wroteHeader && g.ResponseWriter.committed
+//@   ensures status: !g.ResponseWriter.hijacked ==> g.ResponseWriter.status == g.statusCode
+//@   ensures asked_or_200: g.statusCode == (old(g.wroteHeader) ? old(g.statusCode) : 200)
+//@   ensures labels_are_those_at_commit: !old(g.headerSent) && !old(g.ResponseWriter.committed) ==>
+//@             g.ResponseWriter.ceAtCommit == hdrOf(g.ResponseWriter, "Content-Encoding") && g.ResponseWriter.clAtCommit == hdrOf(g.ResponseWriter, "Content-Length")
+//@   ensures already: old(g.headerSent) ==> g.ResponseWriter.ceAtCommit == old(g.ResponseWriter.ceAtCommit) && g.ResponseWriter.clAtCommit == old(g.ResponseWriter.clAtCommit)
+//@   ensures body_kept: g.ResponseWriter.bodyLen == old(g.ResponseWriter.bodyLen)
+//@   modifies g.statusCode, g.wroteHeader, g.headerSent, http.ResponseWriter.committed, http.ResponseWriter.status, http.ResponseWriter.ceAtCommit, http.ResponseWriter.clAtCommit
+
+//@ func (*gzipResponseWriter).passThrough
+//@   props C15
+//@   requires inv(g)
+//@   ensures inv: inv(g)
+//@   ensures streaming: g.bufferExceeded && g.headerSent && g.buf.n == (old(g.bufferExceeded) ? old(g.buf.n) : 0)
+//@   ensures identity_labels: !old(g.bufferExceeded) && !old(g.ResponseWriter.committed) ==>
+//@             g.ResponseWriter.ceAtCommit == old(hdrOf(g.ResponseWriter, "Content-Encoding")) && g.ResponseWriter.clAtCommit == old(hdrOf(g.ResponseWriter, "Content-Length"))
+//@   ensures status: !g.ResponseWriter.hijacked && !old(g.bufferExceeded) ==> g.ResponseWriter.status == (old(g.wroteHeader) ? old(g.statusCode) : 200)
+//@   modifies g.bufferExceeded, g.statusCode, g.wroteHeader, g.headerSent, g.buf.n, http.ResponseWriter.committed, http.ResponseWriter.status, http.ResponseWriter.ceAtCommit,
+//@            http.ResponseWriter.clAtCommit, http.ResponseWriter.bodyLen
+
+//@ func (*gzipResponseWriter).Write
+//@   props C15
+//@   requires inv(g)
+//@   ensures inv: inv(g)
+//@   ensures buffered_until_cap: !old(g.bufferExceeded) && old(g.buf.n) + len(b) <= MaxCompressionBufferSize ==> !g.bufferExceeded && g.buf.n == old(g.buf.n) + len(b)
+//@             && g.ResponseWriter.committed == old(g.ResponseWriter.committed) && result0 == len(b) && result1 == nil
+//@   ensures over_cap_streams_identity: !old(g.bufferExceeded) && old(g.buf.n) + len(b) > MaxCompressionBufferSize ==> g.bufferExceeded
+//@   modifies g.bufferExceeded, g.statusCode, g.wroteHeader, g.headerSent, g.buf.n, http.ResponseWriter.committed, http.ResponseWriter.status, http.ResponseWriter.ceAtCommit,
+//@            http.ResponseWriter.clAtCommit, http.ResponseWriter.bodyLen
+
+//@ func (*gzipResponseWriter).Flush
+//@   props C15
+//@   requires inv(g)
+//@   ensures inv: inv(g)
+//@   ensures flush_never_commits_a_wrong_label: g.bufferExceeded
+//@   modifies g.bufferExceeded, g.statusCode, g.wroteHeader, g.headerSent, g.buf.n, http.ResponseWriter.committed, http.ResponseWriter.status, http.ResponseWriter.ceAtCommit,
+//@            http.ResponseWriter.clAtCommit, http.ResponseWriter.bodyLen, http.ResponseWriter.flushes
+
+//@ func (*gzipResponseWriter).Hijack
+//@   props C15 C20
+//@   requires inv(g)
+//@   ensures inv: inv(g)
+//@   modifies http.ResponseWriter.hijacked
+
+// content-type eligibility
+//@ func matchesContentType
+//@   props C15
+//@   ensures prefix_match: result <==> exists i int :: {allowed[i]} 0 <= i && i < len(allowed) && hasPrefix(ct, allowed[i])
+//@ loop matchesContentType #0
+//@   props C15
+//@   invariant idx: rangeindex < len(allowed)
+//@   invariant none: forall k int :: {allowed[k]} 0 <= k && k <= rangeindex ==> !hasPrefix(ct, allowed[k])
+//@   decreases len(allowed) - rangeindex
+
+// eligibility of a buffered body for compression (documented conditions: at least min_size, non-empty, not
+// already encoded, declared length not below min_size, content type matches a configured prefix)
+//@ pred eligible(g *gzipResponseWriter, n int) := n > 0 && n >= g.minSize && hdrOf(g.ResponseWriter, "Content-Encoding") == ""
+//@      && !(hdrOf(g.ResponseWriter, "Content-Length") != "" && atoi_ok(hdrOf(g.ResponseWriter, "Content-Length")) && atoi_val(hdrOf(g.ResponseWriter, "Content-Length")) < g.minSize)
+//@      && (exists i int :: {g.contentTypes[i]} 0 <= i && i < len(g.contentTypes) && hasPrefix(hdrOf(g.ResponseWriter, "Content-Type"), g.contentTypes[i]))
+//@ func (*gzipResponseWriter).shouldGzip
+//@   props C15
+//@   requires g.ResponseWriter != nil
+//@   ensures exactly_when_eligible: result <==> eligible(g, len(body))
+
+//@ func (*gzipResponseWriter).Finish
+//@   props C15
+//@   requires inv(g)
+//@   ensures response_committed_with_asked_status: g.ResponseWriter.committed && (!g.ResponseWriter.hijacked ==> g.ResponseWriter.status == (old(g.wroteHeader) ? old(g.statusCode) : 200))
+//@   ensures compressed_is_labelled_at_commit: !old(g.ResponseWriter.hijacked) && !old(g.bufferExceeded) && old(eligible(g, g.buf.n)) && -2 <= g.level && g.level <= 9 ==>
+//@             g.ResponseWriter.ceAtCommit == "gzip" && g.ResponseWriter.clAtCommit == ""
+//@   ensures identity_keeps_labels: !old(g.ResponseWriter.hijacked) && !old(g.bufferExceeded) && !(old(eligible(g, g.buf.n)) && -2 <= g.level && g.level <= 9) ==>
+//@             g.ResponseWriter.ceAtCommit == old(hdrOf(g.ResponseWriter, "Content-Encoding")) && g.ResponseWriter.clAtCommit == old(hdrOf(g.ResponseWriter, "Content-Length"))
+//@   modifies g.statusCode, g.wroteHeader, g.headerSent, http.Header.vals, http.ResponseWriter.committed, http.ResponseWriter.status, http.ResponseWriter.ceAtCommit,
+//@            http.ResponseWriter.clAtCommit, http.ResponseWriter.bodyLen
+
+// Accept-Encoding: the client "listed gzip" iff some comma-separated element, trimmed, is exactly "gzip".
+//@ pred listsGzip(ae string) := exists j int :: {part(ae, ",", j)} 0 <= j && j < nparts(ae, ",") && trim_space(part(ae, ",", j)) == "gzip"
+// splitAndTrim: contract stated but its loop proof (quantifier alternation over a string-element backing store)
+// is not discharged by the solvers within the time limit; it is therefore NOT verified and is listed as an
+// assumed contract in the evidence of every check that uses it.
+//@ func splitAndTrim
+//@   ensures sound: forall k int :: {result[k]} 0 <= k && k < len(result) ==> result[k] != "" && (exists j int :: {part(s, sep, j)} 0 <= j && j < nparts(s, sep) && result[k] == trim_space(part(s, sep, j)))
+//@   ensures complete: forall j int :: {part(s, sep, j)} 0 <= j && j < nparts(s, sep) && trim_space(part(s, sep, j)) != "" ==> (exists k int :: {result[k]} 0 <= k && k < len(result) && result[k] == trim_space(part(s, sep, j)))
+
+//@ func containsGzip
+//@   props C15
+//@   ensures token: result <==> listsGzip(acceptEncoding)
+//@ loop containsGzip #0
+//@   props C15
+//@   invariant idx: rangeindex < len(ranged)
+//@   invariant none_so_far: forall k int :: {ranged[k]} 0 <= k && k <= rangeindex ==> ranged[k] != "gzip"
+//@   decreases len(ranged) - rangeindex
+
+//@ func shouldCompress
+//@   props C15
+//@   requires r != nil && r.Header != nil
+//@   ensures result <==> listsGzip(r.Header.vals["Accept-Encoding"])
+
+// The handler installed by the gzip plugin.
+//@ func init#1$1$1$1
+//@   props C15 C17
+//@   may_panic
+//@   requires w != nil && r != nil && r.Header != nil && next != nil && !w.committed && !w.hijacked
+//@   ensures next_exactly_once: calls(next) == 1
+//@   ensures compress_path_commits: listsGzip(r.Header.vals["Accept-Encoding"]) && !w.hijacked ==> w.committed
+//@   modifies *
